@@ -241,42 +241,32 @@ Definition wrap (s : str) (length : Z) : res (list str) := wrap_w (split_chunks 
    underline, italic, reset.  Used by the visible-text clause. *)
 Definition is_d (c : N) : bool :=      (* \d of a str pattern: Unicode decimal digits *)
   match udigit_val c with Some v => negb (v =? 99) | None => false end.
-Definition eat2 (s : str) : str :=
+(* the regex \x03(?:\d{1,2},\d{1,2}|\d{1,2}|,\d{1,2}|) followed by the removal of \x02 \x16 \x1f
+   \x1d \x0f, as a character machine: VC after \x03, VF1/VF2 after one/two foreground digits,
+   VP/VP0 a comma that is eaten only if a digit follows, VB1 after one background digit *)
+Inductive vst : Type := VN | VC | VF1 | VF2 | VP | VP0 | VB1.
+
+(* (each branch spells out the "ordinary character" case so that the extracted, strict code only
+   evaluates the recursive call it needs) *)
+Fixpoint vis (st : vst) (s : str) : str :=
   match s with
-  | a :: b :: r => if is_d a then (if is_d b then r else b :: r) else s
-  | [a] => if is_d a then [] else s
-  | [] => []
-  end.
-Fixpoint visible_go (fuel : nat) (s : str) : str :=
-  match fuel with
-  | O => []
-  | S f =>
-      match s with
-      | [] => []
-      | c :: s' =>
-          if c =? 3 then
-            (* (?:\d{1,2}(?:,\d{1,2})?)? *)
-            match s' with
-            | a :: _ =>
-                if is_d a then
-                  let r := eat2 s' in
-                  match r with
-                  | 44 :: d :: r2 => if is_d d then visible_go f (eat2 (d :: r2)) else visible_go f r
-                  | _ => visible_go f r
-                  end
-                else if a =? 44 then
-                  match s' with
-                  | _ :: d :: r2 => if is_d d then visible_go f (eat2 (d :: r2)) else visible_go f s'
-                  | _ => visible_go f s'
-                  end
-                else visible_go f s'
-            | [] => []
-            end
-          else if mem c [2; 22; 31; 29; 15] then visible_go f s'
-          else c :: visible_go f s'
+  | [] => match st with VP | VP0 => [44] | _ => [] end
+  | c :: s' =>
+      match st with
+      | VN => if c =? 3 then vis VC s' else if mem c [2; 22; 31; 29; 15] then vis VN s' else c :: vis VN s'
+      | VC => if is_d c then vis VF1 s' else if c =? 44 then vis VP0 s'
+              else if c =? 3 then vis VC s' else if mem c [2; 22; 31; 29; 15] then vis VN s' else c :: vis VN s'
+      | VF1 => if is_d c then vis VF2 s' else if c =? 44 then vis VP s'
+               else if c =? 3 then vis VC s' else if mem c [2; 22; 31; 29; 15] then vis VN s' else c :: vis VN s'
+      | VF2 => if c =? 44 then vis VP s'
+               else if c =? 3 then vis VC s' else if mem c [2; 22; 31; 29; 15] then vis VN s' else c :: vis VN s'
+      | VP | VP0 => if is_d c then vis VB1 s'
+                    else 44 :: (if c =? 3 then vis VC s' else if mem c [2; 22; 31; 29; 15] then vis VN s' else c :: vis VN s')
+      | VB1 => if is_d c then vis VN s'
+               else if c =? 3 then vis VC s' else if mem c [2; 22; 31; 29; 15] then vis VN s' else c :: vis VN s'
       end
   end.
-Definition visible (s : str) : str := visible_go (S (length s)) s.
+Definition visible (s : str) : str := vis VN s.
 
 (* ------------------------------------------------------------------ *)
 (* NestedCommandsIrcProxy.reply (finalEvaled, not nested, no action/notice/
@@ -291,20 +281,43 @@ Record cfg := Cfg {
   c_mores : bool;        (* supybot.reply.mores *)
   c_length : N;          (* supybot.reply.mores.length *)
   c_maximum : N;         (* supybot.reply.mores.maximum *)
-  c_instant : N          (* supybot.reply.mores.instant *)
+  c_instant : N;         (* supybot.reply.mores.instant *)
+  c_private : bool;      (* irc.reply(..., private=True) *)
+  c_inPrivate : bool;    (* supybot.reply.inPrivate (consulted by _makeReply when private is None) *)
+  c_to : option str;     (* irc.reply(..., to=<nick|channel>) *)
+  c_to_public : bool;    (* irc.isChannel(to) *)
+  c_notice : bool;       (* irc.reply(..., notice=True) *)
+  c_withNotice : bool    (* supybot.reply.withNotice (consulted when notice is None) *)
 }.
 
 Definition s_privmsg : str := [80; 82; 73; 86; 77; 83; 71].
 Definition s_notice : str := [78; 79; 84; 73; 67; 69].
 
-(* str(_makeReply(irc, msg, s, prefixNick=self.prefixNick)) *)
+(* _makeReply's view of the reply: private = self.private (True or None -> conf), to = self.to *)
+Definition eff_private (k : cfg) : bool := c_private k || c_inPrivate k.
+(* target: replyTo(msg); a public `to` overrides; a private reply goes to `to` or msg.nick *)
+Definition real_target (k : cfg) : str :=
+  let t0 := if c_public k then c_arg0 k else c_nick k in
+  let t1 := match c_to k with Some t => if c_to_public k then t else t0 | None => t0 end in
+  if eff_private k then match c_to k with Some t => t | None => c_nick k end else t1.
+(* isPublic(target): nicks are not channels *)
+Definition target_public (k : cfg) : bool :=
+  if eff_private k then match c_to k with Some _ => c_to_public k | None => false end
+  else match c_to k with Some _ => c_to_public k || c_public k | None => c_public k end.
+(* the "nick: " put in front: `to` (default msg.nick) unless private, the target is a nick, or `to` is a channel *)
+Definition nick_prefix (k : cfg) : str :=
+  let to' := match c_to k with Some t => t | None => c_nick k end in
+  let to_pub := match c_to k with Some _ => c_to_public k | None => false end in
+  if c_prefixNick k && negb (eff_private k) && target_public k && negb to_pub
+  then to' ++ gen.T12.NICK_SEP else [].
+Definition cmd_of (k : cfg) : str :=
+  if c_notice k || c_withNotice k || (negb (target_public k) && c_noticePriv k) then s_notice else s_privmsg.
+
+(* str(_makeReply(irc, msg, s, to=self.to, notice=self.notice, private=self.private, prefixNick=self.prefixNick)) *)
 Definition makeReply (k : cfg) (s : str) : str :=
-  let target := if c_public k then c_arg0 k else c_nick k in
   let s := strip [1] s in
   let s := match s with [] => gen.T12.EMPTY_MSG | _ => s end in
-  let s := if c_prefixNick k && c_public k then c_nick k ++ gen.T12.NICK_SEP ++ s else s in
-  let cmd := if negb (c_public k) && c_noticePriv k then s_notice else s_privmsg in
-  cmd ++ [32] ++ target ++ [32; 58] ++ s ++ [13; 10].
+  cmd_of k ++ [32] ++ real_target k ++ [32; 58] ++ (nick_prefix k ++ s) ++ [13; 10].
 
 (* '%i' % n *)
 Fixpoint dec_go (fuel : nat) (n : N) (acc : str) : str :=
@@ -350,13 +363,21 @@ Fixpoint instant_loop (fuel : nat) (instant : N) (msgs sent : list str) : list s
 Definition slice_to (s : str) (n : Z) : str :=
   if (n <? 0)%Z then firstn (Z.to_nat (Z.of_nat (length s) + n)) s else firstn (Z.to_nat n) s.
 
+(* reply()'s own idea of the recipient: target = _getTarget(to) = self.private and self.to or msg.args[0];
+   recipient = target if self.private or self.to or msg.channel else msg.nick *)
+Definition reserve_recipient (k : cfg) : str :=
+  let target := match c_private k, c_to k with true, Some t => t | _, _ => c_arg0 k end in
+  if c_private k || (match c_to k with Some _ => true | None => false end) || c_public k
+  then target else c_nick k.
+
+(* the room reply() computes when mores.length = 0 (byteLength of prefix, recipient and nick) *)
+Definition line_room (k : cfg) : Z :=
+  (Z.of_N gen.T12.LINE_MAX - Z.of_N gen.T12.FIXED_OVERHEAD
+   - Z.of_N (blen (c_prefix k)) - Z.of_N (blen (reserve_recipient k))
+   - (if c_prefixNick k then Z.of_N (blen (c_nick k)) + Z.of_N (slen gen.T12.NICK_SEP) else 0))%Z.
+
 Definition allowed_length (k : cfg) : Z :=
-  if c_length k =? 0 then
-    (* byteLength; recipient = msg.nick when the command came in a query *)
-    (Z.of_N gen.T12.LINE_MAX - Z.of_N gen.T12.FIXED_OVERHEAD
-     - Z.of_N (blen (c_prefix k)) - Z.of_N (blen (if c_public k then c_arg0 k else c_nick k))
-     - (if c_prefixNick k then Z.of_N (blen (c_nick k)) + Z.of_N (slen gen.T12.NICK_SEP) else 0))%Z
-  else Z.of_N (c_length k).
+  if c_length k =? 0 then line_room k else Z.of_N (c_length k).
 
 (* result: (messages sent now, in order; the _mores list in Python order) *)
 Definition reply (k : cfg) (s0 : str) : res (list str * list str) :=
@@ -408,7 +429,8 @@ Definition vCtx (c : fctx) : value :=
   L [vO vN (fg c); vO vN (bg c); vB (fbold c); vB (frev c); vB (ful c)].
 Definition gCfg (v : value) : cfg :=
   Cfg (gS (nth_v 0 v)) (gS (nth_v 1 v)) (gS (nth_v 2 v)) (gB (nth_v 3 v)) (gB (nth_v 4 v))
-      (gB (nth_v 5 v)) (gB (nth_v 6 v)) (gN (nth_v 7 v)) (gN (nth_v 8 v)) (gN (nth_v 9 v)).
+      (gB (nth_v 5 v)) (gB (nth_v 6 v)) (gN (nth_v 7 v)) (gN (nth_v 8 v)) (gN (nth_v 9 v))
+      (gB (nth_v 10 v)) (gB (nth_v 11 v)) (gO gS (nth_v 12 v)) (gB (nth_v 13 v)) (gB (nth_v 14 v)) (gB (nth_v 15 v)).
 
 (* run: (op payload)
    0 s                -> utf8 bytes, blen
